@@ -1357,7 +1357,7 @@ def _text_worker(args):
 
 
 class C14(Prop):
-    name = 'C14'; module = 'C14'; claimed = False
+    name = 'C14'; module = 'C14'; claimed = True
     title = 'text parsers recognise exactly their documented languages'
     bins = ['h_text']
     rule = ('int/digits with radix 2,8,10,16,36; ascii and unicode ident; keywords; whitespace, inline_whitespace, newline; padded; each on '
